@@ -13,8 +13,11 @@
 \* new slot list pointing at the SAME slots (ZVal) and the SAME nested arrays.  A mutation that
 \* rewrites an existing slot or a nested array in place therefore shows through every copy --
 \* named deviation "cells-shared-on-copy"; mutations that rebuild the slot list (append, unset,
-\* push, pop, shift, unshift, sort, new keys) do not.  TLC refutes NoLeak on the mechanism layer
-\* and proves it on the reference layer; each scenario is printed with both predictions.
+\* push, pop, shift, unshift, sort, new keys) do not, but the slots stay shared afterwards.  Storing
+\* into an array element ($outer[1] = $a) did not copy at all: every mutation shows through
+\* (deviation "element-store-shares-array").  TLC refutes NoLeak on the mechanism layer and proves
+\* it on the reference layer; each scenario is printed with both predictions.  Both deviations were
+\* repaired in the repository (fix commits 12672f2, 632f08f); the layer documents the old design.
 EXTENDS Integers, Sequences, FiniteSets, TLC, Json
 
 CONSTANTS MaxMut, Emit
@@ -61,9 +64,9 @@ Mutate(m, side) ==
      /\ cells' = [cells EXCEPT ![c] = Append(@, m)]
      \* the other name shows the write: reference layer iff same cell; mechanism also through shared slots
      /\ act' = [op |-> "mutate", route |-> route, mut |-> m, side |-> side,
-                leakRef |-> (c = o), leakDev |-> (c = o \/ (InPlace(m) /\ o \in slots[c]))]
-     \* rebuilding the slot list detaches the mutated list from the shared slots
-     /\ slots' = IF c # o /\ ~InPlace(m) THEN [slots EXCEPT ![c] = {c}, ![o] = slots[o] \ {c}] ELSE slots
+                leakRef |-> (c = o),
+                leakDev |-> (c = o \/ (InPlace(m) /\ o \in slots[c]) \/ route = "elemstore")]
+     /\ slots' = slots
   /\ nmut' = nmut + 1 /\ UNCHANGED <<shape, route, bind>>
 
 Next == (\E r \in Routes : MakeCopy(r)) \/ (\E m \in Muts, s \in {"orig", "copy"} : Mutate(m, s))
